@@ -317,6 +317,25 @@ func fixedSems(rng *rand.Rand) []Sem {
 	s = base()
 	s.Pats = []cPattern{ex}
 	out = append(out, s) // minimal single origin
+	// LARGE lists: search helpers (binary search, sorted sets, the radix tree) behave differently beyond a handful of elements
+	s = base()
+	host := "example.org"
+	for i := 0; i < 12; i++ {
+		host = string(rune('a'+i)) + "." + host
+		s.Pats = append(s.Pats, cPattern{Scheme: "https", Host: host}, cPattern{Scheme: "https", Host: fmt.Sprintf("s%02d.example.org", i), Port: 8000 + i})
+	}
+	s.Pats = append(s.Pats, cPattern{Scheme: "https", Wild: true, Host: "w.example.org", Port: anyPort}, cPattern{Scheme: "http", Host: "a.example.org", Port: 8080})
+	for i := 0; i < 23; i++ {
+		s.HNames = append(s.HNames, fmt.Sprintf("x-h%02d", i))
+		if i < 16 {
+			s.Expose = append(s.Expose, fmt.Sprintf("x-e%02d", i))
+		}
+	}
+	s.HNames = append([]string{"authorization"}, s.HNames...)
+	s.HAuth = true
+	s.Meths = []string{"A_B", "COPY", "DELETE", "LOCK", "M-SEARCH", "MKCOL", "MOVE", "PATCH", "PROPFIND", "PURGE", "PUT", "QUERY", "REPORT", "UNLOCK"}
+	s.Cred, s.MaxAge, s.Status = true, 5, 299
+	out = append(out, s)
 	return out
 }
 
